@@ -1,19 +1,41 @@
 mod test;
 
-use hashbrown::HashMap;
+use std::collections::BTreeMap;
 
 use serde_json::Value;
 
-#[derive(Debug, Clone)]
+/// A configuration flattened to dotted keys (`"diagnostics.enable"`). The nested and the flat
+/// spelling of a setting flatten to the same key; keys are kept sorted so that the result never
+/// depends on hash iteration order.
+#[derive(Debug, Clone, Default)]
 pub struct FlattenConfigObject {
-    config: HashMap<String, Value>,
+    config: BTreeMap<String, Value>,
 }
 
 impl FlattenConfigObject {
     pub fn parse(luals_json: Value) -> Self {
-        let mut config = HashMap::new();
+        let mut config = BTreeMap::new();
         flatten_object("", &luals_json, &mut config);
         Self { config }
+    }
+
+    /// Merge a later configuration into this one: scalars of the later one win, arrays are
+    /// appended without duplicates.
+    pub fn merge(&mut self, later: FlattenConfigObject) {
+        for (key, value) in later.config {
+            match (self.config.get_mut(&key), value) {
+                (Some(Value::Array(base)), Value::Array(items)) => {
+                    for item in items {
+                        if !base.contains(&item) {
+                            base.push(item);
+                        }
+                    }
+                }
+                (_, value) => {
+                    self.config.insert(key, value);
+                }
+            }
+        }
     }
 
     pub fn to_emmyrc(&self) -> Value {
@@ -21,7 +43,7 @@ impl FlattenConfigObject {
     }
 }
 
-fn flatten_object(prefix: &str, val: &Value, config: &mut HashMap<String, Value>) {
+fn flatten_object(prefix: &str, val: &Value, config: &mut BTreeMap<String, Value>) {
     match val {
         Value::Object(map) => {
             for (k, v) in map.iter() {
@@ -46,15 +68,21 @@ fn to_emmyrc_json(config: &FlattenConfigObject) -> Value {
         let mut current = &mut emmyrc;
         for i in 0..keys.len() {
             let key = keys[i];
-            if i == keys.len() - 1 {
-                current[key] = v.clone();
-            } else {
-                current = current
-                    .as_object_mut()
-                    .expect("always an object")
-                    .entry(key.to_string())
-                    .or_insert(Value::Object(Default::default()));
+            // a key that is both a value and a prefix of other keys ("runtime": 1 next to
+            // "runtime.version") gives way to the nested keys instead of panicking
+            if !current.is_object() {
+                *current = Value::Object(Default::default());
             }
+            let Some(map) = current.as_object_mut() else {
+                break;
+            };
+            if i == keys.len() - 1 {
+                map.insert(key.to_string(), v.clone());
+                break;
+            }
+            current = map
+                .entry(key.to_string())
+                .or_insert(Value::Object(Default::default()));
         }
     }
     emmyrc
